@@ -10,6 +10,7 @@ import CompmechVerif.Gen.Conn.BFxcte
 import CompmechVerif.Gen.Conn.BFycte
 import CompmechVerif.Gen.Conn.SB
 import CompmechVerif.Spec.Interface
+import CompmechVerif.Spec.InterfacePSD
 import CompmechVerif.Core.OpSpecTactics
 import Mathlib.Tactic.FinCases
 import Mathlib.Data.Fintype.Basic
@@ -91,6 +92,130 @@ theorem sb_12 (C : CCtx K) (h1 : C.a1 ≠ 0) (h2 : C.b1 ≠ 0) (ro co : Fin 3) :
 theorem sb_22 (C : CCtx K) (h1 : C.a1 ≠ 0) (h2 : C.b1 ≠ 0) (ro co : Fin 3) :
     SB.b22.entry ro co C = surfHess C (sbOps C) (sbW C) .p2 .p2 (fld3 ro) (fld3 co) := by
   fin_cases ro <;> fin_cases co <;> conn_eq_hess [sbOps]
+
+
+/-! ### positive semi-definiteness of the connection matrices (over ℝ)
+
+`connEntry b11 b12 b22 base J E pA pB ro co i k j l` (Spec/InterfacePSD.lean) is the entry of the symmetric connection matrix
+`[[k11, k12], [k12ᵀ, k22]]` for the row degree of freedom (panel `pA`, field offset `ro`, series indices `i, j`) and the column
+one (`pB`, `co`, `k, l`), the kernels evaluated in the context their loop body sees for these indices (`cctxAt`).
+`RealLineIntegrals J along Z z₁ z₂`: the integrals along the interface line ARE integrals over `[z₁, z₂]`, `z₁ ≤ z₂`, of products
+of continuous functions (`Z d f p i = D^d φ^f` of panel `p`); the point values `E` at the interface coordinates are arbitrary.
+Then for ANY finite family of degrees of freedom of the two panels and ANY amplitudes `c`: `cᵀ K c ≥ 0` whenever
+`kt, kr ≥ 0` and the interface length (area) is `≥ 0` — `cᵀ K c = kt ∫ |⟦u⟧|² + kr ∫ ⟦rotation⟧²` of the field with amplitudes `c`
+(Core/ConnSpecPSD.lean).  The examples instantiate every hypothesis (non-vacuity): `a₁ = b₁ = 2`, `a₂ = 3`, `b₂ = 1`,
+`kt = 1000`, `kr = 10`, `dsb = 1/10`, monomials `t^(i+d)` (panel 1), `(1−t)^(i+d)` (panel 2) on `[−1, 1]`. -/
+
+open scoped BigOperators
+
+/-- skin–skin connection along `y = const` -/
+theorem conn_psd_ssy {ι : Type} (base : CCtx ℝ) (J : ConnIntegrals) (E : ConnEvals) (hk : base.kt ≠ 0)
+    (h1 : base.b1 ≠ 0) (h2 : base.b2 ≠ 0) (hkt : 0 ≤ base.kt) (hkr : 0 ≤ base.kr) (hlen : 0 ≤ base.a1)
+    (Z : Nat → Fld → Pan → Nat → ℝ → ℝ) (z₁ z₂ : ℝ) (hR : RealLineIntegrals J .x Z z₁ z₂)
+    (s : Finset ι) (pan : ι → Pan) (ro : ι → Fin 3) (ix iy : ι → Nat) (c : ι → ℝ) :
+    0 ≤ ∑ A ∈ s, ∑ B ∈ s, c A * c B *
+      connEntry SSycte.b11.entry SSycte.b12.entry SSycte.b22.entry base J E (pan A) (pan B) (ro A) (ro B)
+        (ix A) (ix B) (iy A) (iy B) :=
+  connEntry_line_psd _ _ _ base J E .x .y base.a1 hlen Z z₁ z₂ hR (ssyOps base) (penaltyW base)
+    (penaltyW_nonneg base hkt hkr)
+    (fun ro co i k j l => ssy_11 (cctxAt base J E i k j l) hk h1 h2 ro co)
+    (fun ro co i k j l => ssy_12 (cctxAt base J E i k j l) hk h1 h2 ro co)
+    (fun ro co i k j l => ssy_22 (cctxAt base J E i k j l) hk h1 h2 ro co) s pan ro ix iy c
+
+open ConnPSDExample in
+example {ι : Type} (s : Finset ι) (pan : ι → Pan) (ro : ι → Fin 3) (ix iy : ι → Nat) (c : ι → ℝ) :
+    0 ≤ ∑ A ∈ s, ∑ B ∈ s, c A * c B *
+      connEntry SSycte.b11.entry SSycte.b12.entry SSycte.b22.entry unitConn monoJ monoE (pan A) (pan B) (ro A) (ro B)
+        (ix A) (ix B) (iy A) (iy B) :=
+  conn_psd_ssy unitConn monoJ monoE (by norm_num [unitConn]) (by norm_num [unitConn]) (by norm_num [unitConn])
+    (by norm_num [unitConn]) (by norm_num [unitConn]) (by norm_num [unitConn]) mono (-1) 1 (monoJ_line _) s pan ro ix iy c
+
+/-- skin–skin connection along `x = const` -/
+theorem conn_psd_ssx {ι : Type} (base : CCtx ℝ) (J : ConnIntegrals) (E : ConnEvals) (hk : base.kt ≠ 0)
+    (h1 : base.a1 ≠ 0) (h2 : base.a2 ≠ 0) (hkt : 0 ≤ base.kt) (hkr : 0 ≤ base.kr) (hlen : 0 ≤ base.b1)
+    (Z : Nat → Fld → Pan → Nat → ℝ → ℝ) (z₁ z₂ : ℝ) (hR : RealLineIntegrals J .y Z z₁ z₂)
+    (s : Finset ι) (pan : ι → Pan) (ro : ι → Fin 3) (ix iy : ι → Nat) (c : ι → ℝ) :
+    0 ≤ ∑ A ∈ s, ∑ B ∈ s, c A * c B *
+      connEntry SSxcte.b11.entry SSxcte.b12.entry SSxcte.b22.entry base J E (pan A) (pan B) (ro A) (ro B)
+        (ix A) (ix B) (iy A) (iy B) :=
+  connEntry_line_psd _ _ _ base J E .y .x base.b1 hlen Z z₁ z₂ hR (ssxOps base) (penaltyW base)
+    (penaltyW_nonneg base hkt hkr)
+    (fun ro co i k j l => ssx_11 (cctxAt base J E i k j l) hk h1 h2 ro co)
+    (fun ro co i k j l => ssx_12 (cctxAt base J E i k j l) hk h1 h2 ro co)
+    (fun ro co i k j l => ssx_22 (cctxAt base J E i k j l) hk h1 h2 ro co) s pan ro ix iy c
+
+open ConnPSDExample in
+example {ι : Type} (s : Finset ι) (pan : ι → Pan) (ro : ι → Fin 3) (ix iy : ι → Nat) (c : ι → ℝ) :
+    0 ≤ ∑ A ∈ s, ∑ B ∈ s, c A * c B *
+      connEntry SSxcte.b11.entry SSxcte.b12.entry SSxcte.b22.entry unitConn monoJ monoE (pan A) (pan B) (ro A) (ro B)
+        (ix A) (ix B) (iy A) (iy B) :=
+  conn_psd_ssx unitConn monoJ monoE (by norm_num [unitConn]) (by norm_num [unitConn]) (by norm_num [unitConn])
+    (by norm_num [unitConn]) (by norm_num [unitConn]) (by norm_num [unitConn]) mono (-1) 1 (monoJ_line _) s pan ro ix iy c
+
+/-- base – perpendicular flange along `y = const` -/
+theorem conn_psd_bfy {ι : Type} (base : CCtx ℝ) (J : ConnIntegrals) (E : ConnEvals) (hk : base.kt ≠ 0)
+    (h1 : base.b1 ≠ 0) (h2 : base.b2 ≠ 0) (hkt : 0 ≤ base.kt) (hkr : 0 ≤ base.kr) (hlen : 0 ≤ base.a1)
+    (Z : Nat → Fld → Pan → Nat → ℝ → ℝ) (z₁ z₂ : ℝ) (hR : RealLineIntegrals J .x Z z₁ z₂)
+    (s : Finset ι) (pan : ι → Pan) (ro : ι → Fin 3) (ix iy : ι → Nat) (c : ι → ℝ) :
+    0 ≤ ∑ A ∈ s, ∑ B ∈ s, c A * c B *
+      connEntry BFycte.b11.entry BFycte.b12.entry BFycte.b22.entry base J E (pan A) (pan B) (ro A) (ro B)
+        (ix A) (ix B) (iy A) (iy B) :=
+  connEntry_line_psd _ _ _ base J E .x .y base.a1 hlen Z z₁ z₂ hR (bfyOps base) (penaltyW base)
+    (penaltyW_nonneg base hkt hkr)
+    (fun ro co i k j l => bfy_11 (cctxAt base J E i k j l) hk h1 h2 ro co)
+    (fun ro co i k j l => bfy_12 (cctxAt base J E i k j l) hk h1 h2 ro co)
+    (fun ro co i k j l => bfy_22 (cctxAt base J E i k j l) hk h1 h2 ro co) s pan ro ix iy c
+
+open ConnPSDExample in
+example {ι : Type} (s : Finset ι) (pan : ι → Pan) (ro : ι → Fin 3) (ix iy : ι → Nat) (c : ι → ℝ) :
+    0 ≤ ∑ A ∈ s, ∑ B ∈ s, c A * c B *
+      connEntry BFycte.b11.entry BFycte.b12.entry BFycte.b22.entry unitConn monoJ monoE (pan A) (pan B) (ro A) (ro B)
+        (ix A) (ix B) (iy A) (iy B) :=
+  conn_psd_bfy unitConn monoJ monoE (by norm_num [unitConn]) (by norm_num [unitConn]) (by norm_num [unitConn])
+    (by norm_num [unitConn]) (by norm_num [unitConn]) (by norm_num [unitConn]) mono (-1) 1 (monoJ_line _) s pan ro ix iy c
+
+/-- base – perpendicular flange along `x = const` -/
+theorem conn_psd_bfx {ι : Type} (base : CCtx ℝ) (J : ConnIntegrals) (E : ConnEvals) (hk : base.kt ≠ 0)
+    (h1 : base.a1 ≠ 0) (h2 : base.a2 ≠ 0) (hkt : 0 ≤ base.kt) (hkr : 0 ≤ base.kr) (hlen : 0 ≤ base.b1)
+    (Z : Nat → Fld → Pan → Nat → ℝ → ℝ) (z₁ z₂ : ℝ) (hR : RealLineIntegrals J .y Z z₁ z₂)
+    (s : Finset ι) (pan : ι → Pan) (ro : ι → Fin 3) (ix iy : ι → Nat) (c : ι → ℝ) :
+    0 ≤ ∑ A ∈ s, ∑ B ∈ s, c A * c B *
+      connEntry BFxcte.b11.entry BFxcte.b12.entry BFxcte.b22.entry base J E (pan A) (pan B) (ro A) (ro B)
+        (ix A) (ix B) (iy A) (iy B) :=
+  connEntry_line_psd _ _ _ base J E .y .x base.b1 hlen Z z₁ z₂ hR (bfxOps base) (penaltyW base)
+    (penaltyW_nonneg base hkt hkr)
+    (fun ro co i k j l => bfx_11 (cctxAt base J E i k j l) hk h1 h2 ro co)
+    (fun ro co i k j l => bfx_12 (cctxAt base J E i k j l) hk h1 h2 ro co)
+    (fun ro co i k j l => bfx_22 (cctxAt base J E i k j l) hk h1 h2 ro co) s pan ro ix iy c
+
+open ConnPSDExample in
+example {ι : Type} (s : Finset ι) (pan : ι → Pan) (ro : ι → Fin 3) (ix iy : ι → Nat) (c : ι → ℝ) :
+    0 ≤ ∑ A ∈ s, ∑ B ∈ s, c A * c B *
+      connEntry BFxcte.b11.entry BFxcte.b12.entry BFxcte.b22.entry unitConn monoJ monoE (pan A) (pan B) (ro A) (ro B)
+        (ix A) (ix B) (iy A) (iy B) :=
+  conn_psd_bfx unitConn monoJ monoE (by norm_num [unitConn]) (by norm_num [unitConn]) (by norm_num [unitConn])
+    (by norm_num [unitConn]) (by norm_num [unitConn]) (by norm_num [unitConn]) mono (-1) 1 (monoJ_line _) s pan ro ix iy c
+
+/-- face to face with thickness offset (surface penalty over the footprint `a₁ × b₁`, `a₁ b₁ ≥ 0`, `kt ≥ 0`) -/
+theorem conn_psd_sb {ι : Type} (base : CCtx ℝ) (J : ConnIntegrals) (E : ConnEvals)
+    (h1 : base.a1 ≠ 0) (h2 : base.b1 ≠ 0) (hkt : 0 ≤ base.kt) (hab : 0 ≤ base.a1 * base.b1)
+    (X Y : Nat → Fld → Pan → Nat → ℝ → ℝ) (x₁ x₂ y₁ y₂ : ℝ) (hR : RealSurfIntegrals J X Y x₁ x₂ y₁ y₂)
+    (s : Finset ι) (pan : ι → Pan) (ro : ι → Fin 3) (ix iy : ι → Nat) (c : ι → ℝ) :
+    0 ≤ ∑ A ∈ s, ∑ B ∈ s, c A * c B *
+      connEntry SB.b11.entry SB.b12.entry SB.b22.entry base J E (pan A) (pan B) (ro A) (ro B)
+        (ix A) (ix B) (iy A) (iy B) :=
+  connEntry_surf_psd _ _ _ base J E hab X Y x₁ x₂ y₁ y₂ hR (sbOps base) (sbW base) (sbW_nonneg base hkt)
+    (fun ro co i k j l => sb_11 (cctxAt base J E i k j l) h1 h2 ro co)
+    (fun ro co i k j l => sb_12 (cctxAt base J E i k j l) h1 h2 ro co)
+    (fun ro co i k j l => sb_22 (cctxAt base J E i k j l) h1 h2 ro co) s pan ro ix iy c
+
+open ConnPSDExample in
+example {ι : Type} (s : Finset ι) (pan : ι → Pan) (ro : ι → Fin 3) (ix iy : ι → Nat) (c : ι → ℝ) :
+    0 ≤ ∑ A ∈ s, ∑ B ∈ s, c A * c B *
+      connEntry SB.b11.entry SB.b12.entry SB.b22.entry unitConn monoJ monoE (pan A) (pan B) (ro A) (ro B)
+        (ix A) (ix B) (iy A) (iy B) :=
+  conn_psd_sb unitConn monoJ monoE (by norm_num [unitConn]) (by norm_num [unitConn]) (by norm_num [unitConn])
+    (by norm_num [unitConn]) mono mono (-1) 1 (-1) 1 monoJ_surf s pan ro ix iy c
 
 end C12
 end Compmech.Panel
